@@ -1,15 +1,178 @@
-"""pyvc.nplib -- contracts for the NumPy operations used by the verified
-functions (trusted library contracts)."""
+"""pyvc.nplib -- symbolic arrays (typed memoryviews and ndarrays) and
+contracts for the NumPy operations used by the verified functions (trusted
+library contracts)."""
 import z3
-from .core import Unsupported
-from .heap import Module, Native, Class, SymArr
+from .core import (Unsupported, CV, zint, zbool, zreal, simp, is_int_ctype, is_float_ctype,
+                   int_range, norm_ctype, wrap_int)
+from .heap import Module, Native, Class, SymArr, SliceObj, PList, Obj, EnumVal
+
+DTYPES = {"int8", "uint8", "int16", "uint16", "int32", "uint32", "int64", "uint64",
+          "float32", "float64", "bool_"}
 
 
-def make_module(I):
-    ns = {"ndarray": Class("ndarray", (), {}, None, "builtin"),
-          "integer": Class("integer", (), {}, None, "builtin"),
-          "floating": Class("floating", (), {}, None, "builtin")}
-    return Module("numpy", ns)
+class DType:
+    def __init__(self, name):
+        self.name = name
+
+
+def elem_value(I, arr, term):
+    """wrap a selected element; elements of a typed array are in range"""
+    if arr.ctype is None:
+        return term
+    if is_int_ctype(arr.ctype):
+        lo, hi = int_range(arr.ctype)
+        t = simp(term)
+        if not isinstance(t, int):
+            I.ctx.assume(z3.And(term >= lo, term <= hi))
+        return CV(arr.ctype, t)
+    if is_float_ctype(arr.ctype):
+        return CV(arr.ctype, term)
+    return term
+
+
+def _bounds(I, arr, k, i, env, what):
+    """normalise index i for dimension k under the Cython directives in force
+    (C-level memoryview access) or NumPy semantics (object access)"""
+    n = arr.shape[k]
+    i = I.unC(i)
+    if isinstance(i, EnumVal):
+        i = i.value
+    iz = i if isinstance(i, int) else zint(i)
+    nz = n if isinstance(n, int) else zint(n)
+    c_level = arr.memview and env is not None and I.is_cy(env)
+    wrap = True
+    check = True
+    if c_level:
+        wrap = I.cyflag(env, "wraparound")
+        check = I.cyflag(env, "boundscheck")
+    j = iz
+    if wrap:
+        if isinstance(iz, int) and isinstance(nz, int):
+            j = iz + nz if iz < 0 else iz
+        else:
+            j = simp(z3.If(zint(iz) < 0, zint(iz) + zint(nz), zint(iz)))
+    inb = simp(z3.And(zint(j) >= 0, zint(j) < zint(nz)))
+    if check:
+        if not I.ctx.branch(inb):
+            I.throw("IndexError", f"{what}: index out of bounds on axis {k}")
+    else:
+        node = getattr(I, "cur_node", None)
+        I.ctx.oblige(I.obname(f"index_in_bounds[{arr.name}.{k}]", node), inb, "memory-safety",
+                     {"why": "boundscheck(False): out of bounds is undefined behaviour"})
+        I.ctx.assume(inb)
+    return j
+
+
+def arr_getitem(I, arr, idx, env):
+    idx = idx if isinstance(idx, tuple) else (idx,)
+    if Ellipsis in idx:
+        raise Unsupported("ellipsis index on a symbolic array")
+    if all(not isinstance(x, (SliceObj, SymArr, PList)) and x is not None for x in idx):
+        if len(idx) == len(arr.shape):
+            t = arr.arr
+            for k, i in enumerate(idx):
+                j = _bounds(I, arr, k, i, env, arr.name)
+                t = z3.Select(t, zint(j))
+            return elem_value(I, arr, t)
+        if len(idx) < len(arr.shape):
+            # leading integer indices select a sub-array (view semantics are
+            # not modelled: the result is a snapshot, writes through it are unsupported)
+            t = arr.arr
+            for k, i in enumerate(idx):
+                j = _bounds(I, arr, k, i, env, arr.name)
+                t = z3.Select(t, zint(j))
+            sub = SymArr(arr.name + "_row", arr.ctype, arr.shape[len(idx):], arr=t, readonly=True,
+                         memview=arr.memview)
+            return sub
+    raise Unsupported(f"array subscript {idx!r}")
+
+
+def arr_setitem(I, arr, idx, v, env):
+    if arr.readonly:
+        raise Unsupported("store through a read-only / snapshot array")
+    I.check_mutation(arr, "array item store")
+    idx = idx if isinstance(idx, tuple) else (idx,)
+    if len(idx) == len(arr.shape) and all(not isinstance(x, (SliceObj, SymArr, PList)) and x is not None and x is not Ellipsis for x in idx):
+        js = [zint(_bounds(I, arr, k, i, env, arr.name)) for k, i in enumerate(idx)]
+        if arr.ctype is not None:
+            v = I.convert(arr.ctype, v, f"store to {arr.name}")
+            val = v.term if isinstance(v, CV) else v
+            val = zreal(val) if is_float_ctype(arr.ctype) else zint(val)
+        else:
+            val = zint(I.unC(v))
+
+        def store(t, js):
+            if len(js) == 1:
+                return z3.Store(t, js[0], val)
+            return z3.Store(t, js[0], store(z3.Select(t, js[0]), js[1:]))
+        arr.arr = store(arr.arr, js)
+        return
+    raise Unsupported(f"array item store {idx!r}")
+
+
+def arr_attr(I, arr, name):
+    if name == "shape":
+        return tuple(arr.shape)
+    if name == "ndim":
+        return len(arr.shape)
+    if name == "size":
+        n = 1
+        for s in arr.shape:
+            n = n * s
+        return n
+    if name == "dtype":
+        return DType(arr.ctype)
+    if name == "copy":
+        def copy(I_, a, k):
+            return SymArr(arr.name + "_copy", arr.ctype, arr.shape, arr=arr.arr)
+        return Native("ndarray.copy", copy)
+    if name == "base":
+        return None
+    if name == "__len__":
+        return Native("ndarray.__len__", lambda I_, a, k: arr.shape[0])
+    if name == "decode":
+        # bytes / bytearray buffers: decode('ascii') -> string of the codes
+        def decode(I_, a, k):
+            return buffer_to_str(I_, arr)
+        return Native("buffer.decode", decode)
+    raise Unsupported("array attribute " + name)
+
+
+def buffer_to_str(I, arr):
+    n = simp(arr.shape[0])
+    if isinstance(n, int):
+        from .strlib import CStr
+        codes = []
+        for i in range(n):
+            c = simp(z3.Select(arr.arr, i))
+            if not isinstance(c, int):
+                if not I.ctx.branch(c < 128):
+                    I.throw("UnicodeDecodeError", "'ascii' codec can't decode byte")
+            elif c >= 128:
+                I.throw("UnicodeDecodeError", "'ascii' codec can't decode byte")
+            codes.append(c)
+        if all(isinstance(c, int) for c in codes):
+            return "".join(chr(c) for c in codes)
+        return CStr(codes)
+    raise Unsupported("decode of a buffer with symbolic length")
+
+
+def str_to_buffer(I, s):
+    """str.encode('ascii') -> unsigned char buffer"""
+    if isinstance(s, str):
+        arr = SymArr("bytes", "unsigned char", [len(s)], readonly=True)
+        t = z3.K(z3.IntSort(), z3.IntVal(0))
+        for i, ch in enumerate(s):
+            t = z3.Store(t, i, ord(ch))
+        arr.arr = t
+        return arr
+    n = z3.Length(s)
+    arr = SymArr("bytes", "unsigned char", [n], readonly=True)
+    i = z3.Int("i!enc")
+    f = arr.arr
+    I.ctx.assume(z3.ForAll([i], z3.Implies(z3.And(i >= 0, i < n),
+                                           z3.Select(f, i) == z3.StrToCode(z3.SubString(s, i, 1)))))
+    return arr
 
 
 def arr_binop(I, o, a, b):
@@ -20,17 +183,59 @@ def arr_compare(I, o, a, b):
     raise Unsupported("array comparison " + o)
 
 
-def arr_attr(I, arr, name):
-    if name == "shape":
-        return tuple(arr.shape)
-    if name == "ndim":
-        return len(arr.shape)
-    raise Unsupported("array attribute " + name)
+def make_module(I):
+    ns = {"ndarray": Class("ndarray", (), {}, None, "builtin"),
+          "integer": Class("integer", (), {}, None, "builtin"),
+          "floating": Class("floating", (), {}, None, "builtin")}
+    for d in DTYPES:
+        ns[d] = DType(d.rstrip("_"))
+    ns["int"] = DType("int64")
 
+    def _array(I_, a, k):
+        src = a[0]
+        items = I_.iter_concrete(src)
+        dt = k.get("dtype")
+        ct = dt.name if isinstance(dt, DType) else None
+        arr = SymArr("array", ct, [len(items)])
+        t = z3.K(z3.IntSort(), z3.IntVal(0))
+        for i, x in enumerate(items):
+            t = z3.Store(t, i, zint(I_.unC(x)))
+        arr.arr = t
+        return arr
+    ns["array"] = Native("np.array", _array)
 
-def arr_getitem(I, arr, idx, env):
-    raise Unsupported("array subscript")
+    def _zeros(I_, a, k):
+        shape = a[0]
+        shape = list(shape) if isinstance(shape, tuple) else [shape]
+        shape = [I_.unC(s) for s in shape]
+        dt = k.get("dtype", a[1] if len(a) > 1 else None)
+        ct = dt.name if isinstance(dt, DType) else "float64"
+        if dt is I_.builtins.get("int"):
+            ct = "int64"
+        if dt is I_.builtins.get("bool"):
+            ct = "uint8"
+        arr = SymArr("zeros", ct, shape)
+        zero = z3.RealVal(0) if is_float_ctype(ct) else z3.IntVal(0)
+        t = zero
+        for _ in shape:
+            t = z3.K(z3.IntSort(), t)
+        arr.arr = t
+        return arr
+    ns["zeros"] = Native("np.zeros", _zeros)
 
+    def _empty(I_, a, k):
+        z = _zeros(I_, a, k)
+        z.arr = z.fresh_term()
+        return z
+    ns["empty"] = Native("np.empty", _empty)
 
-def arr_setitem(I, arr, idx, v, env):
-    raise Unsupported("array item store")
+    def _full(I_, a, k):
+        z = _zeros(I_, [a[0]], k)
+        fill = zint(I_.unC(a[1])) if not is_float_ctype(z.ctype) else zreal(I_.unC(a[1]))
+        t = fill
+        for _ in z.shape:
+            t = z3.K(z3.IntSort(), t)
+        z.arr = t
+        return z
+    ns["full"] = Native("np.full", _full)
+    return Module("numpy", ns)
